@@ -77,6 +77,7 @@ type Contract struct {
 	Notes        []string // assumptions stated by the contract author, copied into the evidence
 	Inline       bool // callers encode the body instead of using the contract (the contract is still verified for the function itself)
 	SplitReturns bool // check the postconditions once per path into a shared return block (no heap merge)
+	NoConvContents bool // string([]byte): model only the length (keeps a quantified fact out of functions that do not need it)
 	StringsExact bool // model the contents of concatenated strings (quantified axioms)
 	Handler  bool // deferred recover handler: recover() yields an arbitrary value
 	RecoverBy string // callee key of the deferred recover handler: runtime panics after its Defer are converted to errors
@@ -494,6 +495,8 @@ func (sp *Specs) loadSpecFile(path, pkgPath string) error {
 			cur.Inline = true
 		case "splitreturns":
 			cur.SplitReturns = true
+		case "noconvcontents":
+			cur.NoConvContents = true
 		case "stringsexact":
 			cur.StringsExact = true
 		case "handler":
